@@ -55,6 +55,7 @@ func raceOpts(idx int) drv.StressOpts {
 	o := drv.StressOpts{
 		Schedulers: 3, Cancelers: 2, Readers: 3, Reloader: true, Saver: true, OpsPerClient: 120,
 		Retention: 1 + idx%3, Shutdown: idx % 3, Parker: idx%4 == 0, HTTPReaders: true, FailProb: 0.15, MaxPauseUs: 150,
+		BadVars: idx%2 == 1,
 	}
 	if idx%2 == 0 {
 		o.RealDelay = 2 * time.Millisecond
